@@ -23,7 +23,7 @@ func init() {
 		Real: "real: all of kvql from /repo's working tree; simulated: storage engine (SimStorage), caller (poll driver), reference model (Go map)",
 		NCases: func(tier string) int {
 			if tier == "thorough" {
-				return 3000000
+				return 8000000
 			}
 			return 60000
 		},
